@@ -57,7 +57,7 @@ def run(run):
     for k, v in errs.items():
         run.correspondence_break("translator %s failed (fail-closed)" % k, None, error=v)
     run.prove()
-    n = 500 if run.tier == "quick" else 5000
+    n = 800 if run.tier == "quick" else 5000
     cases = [gen_case(run.rng) for _ in range(n)]
     cases += [gen_case(run.rng, heavy=True) for _ in range(12 if run.tier == "quick" else 120)]
     res = lib.run_impl("c16", cases, shards=lib.NCPU)
